@@ -165,7 +165,7 @@ func init() {
 		return &ProcCheck{Prop: "C01", Scenarios: "ClaimScenarios", MaxCrashes: 0,
 			IdealInvs:    []string{"Serializable", "NeverBricked"},
 			Only:         []string{"C01_serial", "C01_no_double", "C01_outcomes", "C01_winner_holds", "C01_nowait"},
-			MaxRunsQuick: 1500, Storms: []string{"claim3-two", "claim2-epic", "claim-reopen"}, StormN: 5}
+			MaxRunsQuick: 2500, Storms: []string{"claim3-two", "claim2-epic", "claim-reopen"}, StormN: 5}
 	}
 	registry["C02"] = func() Check {
 		return &ProcCheck{Prop: "C02", Scenarios: "PairScenarios", MaxCrashes: 0,
